@@ -311,12 +311,30 @@ pub(crate) static mut EXEC_CALLS: u8 = 0;
 pub(crate) static mut EXEC_INSTR: u16 = 0;
 pub(crate) static mut EXEC_PC: u16 = 0;
 /// stands in for RunState::execute inside eval: records the word and the PC it is executed "at"
+/// what the recorded "execution" does to the machine: an arbitrary effect chosen by the harness (new PC, one
+/// register write), standing for whatever the real instruction would do (C02) -- so that anything eval does to
+/// the machine *after* executing (e.g. restoring the PC) is visible
+pub(crate) static mut EXEC_NEW_PC: u16 = 0;
+pub(crate) static mut EXEC_REG: u16 = 0;
+pub(crate) static mut EXEC_REG_VAL: u16 = 0;
 pub(crate) fn execute_recorder(s: &mut RunState, instr: u16) {
     unsafe {
         EXEC_CALLS += 1;
         EXEC_INSTR = instr;
         EXEC_PC = s.pc;
+        s.pc = EXEC_NEW_PC;
+        s.reg[(EXEC_REG % 8) as usize] = EXEC_REG_VAL;
     }
+}
+/// choose the arbitrary effect; returns (new_pc, reg, val)
+pub(crate) fn any_exec_effect() -> (u16, u16, u16) {
+    let e: (u16, u16, u16) = (kani::any(), kani::any::<u16>() % 8, kani::any());
+    unsafe {
+        EXEC_NEW_PC = e.0;
+        EXEC_REG = e.1;
+        EXEC_REG_VAL = e.2;
+    }
+    e
 }
 pub(crate) fn exec_calls() -> u8 {
     unsafe { EXEC_CALLS }
